@@ -15,7 +15,7 @@ CONSTANTS
   Horizon,    \* clock bound
   MaxEp,      \* leases per message id
   MaxIns,     \* total inserts
-  Family,     \* set of enabled action families: "lease","operator","admission","read"
+  Family,     \* set of enabled action families: "lease","leasebatch","deqvar","operator","filter","admission","read"
   PickRule,   \* "any" | "insertion" | "nextrun"
   Ticks,      \* clock steps
   Delays,     \* enqueue / nack delays (0 = none)
@@ -81,6 +81,7 @@ Picks(p, rt, tg, b) ==
 Deq ==
   \E rt \in {"", "/r1"}, tg \in {"", "t1"}, b \in {1, 2}, ttl \in TTLs :
     /\ (tg = "" \/ rt # "")
+    /\ (On("deqvar") \/ (rt = "" /\ tg = "" /\ b = 2 /\ ttl = CHOOSE x \in TTLs : \A y \in TTLs : x <= y))
     /\ \E p \in DeqPre(Cfg, S, now) :
          \E got \in Picks(p, rt, tg, b) :
            /\ \A i \in got : ep[i] < MaxEp
@@ -125,7 +126,7 @@ LeaseSingleLit ==
 
 \* batch of two references, possibly the same one twice, possibly blank
 LeaseBatchAct ==
-  /\ On("lease")
+  /\ On("leasebatch")
   /\ \E kind \in {"ack", "nack", "dead"}, r1 \in LeaseRefs, r2 \in {x \in LeaseRefs : x.epoch = ep[x.msg]} \cup {BlankRef} :
        LET id2  == IF r2 = BlankRef THEN "" ELSE RefId(r2)
            j2   == IF r2 = BlankRef THEN [islit |-> TRUE, lit |-> ""] ELSE r2
@@ -157,7 +158,7 @@ Filters == {[rt |-> rt, tg |-> "", st |-> st, before |-> bf, limit |-> lim] :
            \cup {[rt |-> "", tg |-> "t1", st |-> "", before |-> now, limit |-> 1]}
 
 MutFilter ==
-  /\ On("operator")
+  /\ On("filter")
   /\ \E op \in {"cancel", "requeue", "resume"}, f \in Filters, pv \in BOOLEAN :
        LET sel == Select(S.msgs, Rk, op, f)
            res == MutateIds(S.msgs, op, sel, now)
